@@ -167,7 +167,7 @@ class DiscoveryIntroductionRequestPayload(IntroductionRequestPayload):
         """
         Unpack a DiscoveryIntroductionRequestPayload.
         """
-        return DiscoveryIntroductionRequestPayload(introduce_to[1:],
+        return DiscoveryIntroductionRequestPayload(introduce_to[1],
                                                    destination_address,
                                                    source_lan_address,
                                                    source_wan_address,
